@@ -375,6 +375,7 @@ pub fn worker(case: &Value) -> Value {
         "lits" => check_literals(case),
         "exprs" => check_exprs(case),
         "close" => check_close_literals(),
+        "rich" => check_rich_operands(),
         other => json!({"machinery": format!("unknown C10 case kind {}", other)}),
     }
 }
@@ -531,6 +532,50 @@ fn check_close_literals() -> Value {
     json!({"n": labels.len(), "nontrivial": labels.len(), "bad": bads, "sample": {"group": "close literals", "text": super::truncate_text(&text, 600)}})
 }
 
+/// Run level, the implementation against itself: every expression of C01's axis R (operators whose operands are
+/// members of array-of-records elements with expression subscripts, elements, FUNCTION calls, sub-expressions) prints
+/// the same value written as it stands and written fully parenthesised.
+fn check_rich_operands() -> Value {
+    use vcore::gast::{Expr, K, PItem, Prog, Stmt};
+    fn wrap(e: &Expr) -> Expr {
+        match e {
+            Expr::Bin(op, a, b) => Expr::Paren(Box::new(Expr::Bin(*op, Box::new(wrap(a)), Box::new(wrap(b))))),
+            Expr::Paren(x) => wrap(x),
+            other => other.clone(),
+        }
+    }
+    fn wrap_stmt(s: &Stmt) -> Stmt {
+        let mut t = s.clone();
+        t.k = match &s.k {
+            K::Assign(l, r) => K::Assign(l.clone(), wrap(r)),
+            K::Print { dev, using, items } => K::Print { dev: *dev, using: using.clone(), items: items.iter().map(|i| match i { PItem::E(e) => PItem::E(wrap(e)), o => o.clone() }).collect() },
+            other => other.clone(),
+        };
+        t
+    }
+    let mut bads = vec![];
+    let mut n = 0u64;
+    let mut sample = Value::Null;
+    for (prog, label) in vcore::gen01::rich_operand_programs() {
+        let plain = vcore::gprint::print_default(&prog).text;
+        // only the PRINT / assignment statements that follow the set-up hold operators; wrapping the set-up changes nothing
+        let full = Prog { main: prog.main.iter().map(wrap_stmt).collect(), ..prog.clone() };
+        let full_text = vcore::gprint::print_default(&full).text;
+        let a = crate::bind::run_pipeline(&plain, &crate::bind::RunOpts::default());
+        let b = crate::bind::run_pipeline(&full_text, &crate::bind::RunOpts::default());
+        n += 1;
+        if sample.is_null() {
+            sample = json!({"group": "rich operands", "as written": super::truncate_text(&plain, 500), "fully parenthesised": super::truncate_text(&full_text, 500)});
+        }
+        if a.end != b.end || a.stdout != b.stdout {
+            if bads.len() < 10 {
+                bads.push(json!({"sig": "C10|rich-operands|output", "summary": format!("an expression does not evaluate as its fully parenthesised form — operands {} — as written prints {:?} ({}), fully parenthesised prints {:?} ({}) — program: {:?}", label, a.stdout_str(), a.end.class(), b.stdout_str(), b.end.class(), super::truncate_text(&plain, 600)), "text": plain, "case": {"k": "rich"}}));
+            }
+        }
+    }
+    json!({"n": n, "nontrivial": n, "bad": bads, "sample": sample})
+}
+
 pub fn drive(tier: &str) -> i32 {
     let quick = tier == "quick";
     let mut run = Run::new("C10", tier);
@@ -579,6 +624,7 @@ pub fn drive(tier: &str) -> i32 {
         cases.push(json!({"k": "lits", "lits": c}));
     }
     cases.push(json!({"k": "close"}));
+    cases.push(json!({"k": "rich"}));
     let cap = run.wall_cap_s;
     let t0 = run.reporter.start;
     let total_cases = cases.len();
@@ -592,7 +638,7 @@ pub fn drive(tier: &str) -> i32 {
         run.capped = true;
     }
     let mut ev = Evidence::new("exploration");
-    ev.set("rule", "(a) every operator sequence of the planned lengths over the 13 binary operators on operands A..F, with the listed unary / parenthesis variant schemes, is spelled, parsed by the real parser (500 per program) and its tree compared with an independent precedence climber (unary minus > * / > MOD > + - > relational > NOT > AND > OR, left-associative), modulo re-association inside homogeneous AND or OR chains; the scheme `tight` parenthesises one operand or sub-chain, bare or directly after a unary minus / NOT, and writes no blank between an operator and a parenthesis next to it (NOT(A)+B, A MOD(B)*C, (A)AND(B)); non-trivial = operators of at least two different rank classes, or a unary operator / parenthesis, are involved. (b) every literal text of the lattice is checked plain, after a unary minus, after a double unary minus and after a binary minus: node kind and exact value from the parse tree; the lattice includes hexadecimal / octal literals of up to 44 digits (beyond 64 and 128 bits: rejected, never a panic) and fractions of up to 55 digits next to the midpoint of two adjacent SINGLEs / DOUBLEs. (c) run level: 80 pairs of SINGLE / DOUBLE literals 0.000001 .. 0.5 apart, assigned one after the other in both orders and compared as variables and as literals inside one expression — each literal keeps its own value (expected truth values from Rust's parse of the digits). Enumeration without repeats.");
+    ev.set("rule", "(a) every operator sequence of the planned lengths over the 13 binary operators on operands A..F, with the listed unary / parenthesis variant schemes, is spelled, parsed by the real parser (500 per program) and its tree compared with an independent precedence climber (unary minus > * / > MOD > + - > relational > NOT > AND > OR, left-associative), modulo re-association inside homogeneous AND or OR chains; the scheme `tight` parenthesises one operand or sub-chain, bare or directly after a unary minus / NOT, and writes no blank between an operator and a parenthesis next to it (NOT(A)+B, A MOD(B)*C, (A)AND(B)); non-trivial = operators of at least two different rank classes, or a unary operator / parenthesis, are involved. (b) every literal text of the lattice is checked plain, after a unary minus, after a double unary minus and after a binary minus: node kind and exact value from the parse tree; the lattice includes hexadecimal / octal literals of up to 44 digits (beyond 64 and 128 bits: rejected, never a panic) and fractions of up to 55 digits next to the midpoint of two adjacent SINGLEs / DOUBLEs. (c) run level: 80 pairs of SINGLE / DOUBLE literals 0.000001 .. 0.5 apart, assigned one after the other in both orders and compared as variables and as literals inside one expression — each literal keeps its own value (expected truth values from Rust's parse of the digits). (d) run level: the 72 programs of C01's axis R (13 operators on members of array-of-records elements with expression / FUNCTION-call subscripts, elements, FUNCTION calls and sub-expressions, in both orders) print the same written as they stand and written fully parenthesised. Enumeration without repeats.");
     ev.set("exhaustive", !run.capped);
     ev.set("plan", json!(plan_report));
     ev.set("literal_texts", lit_count as u64);
